@@ -420,10 +420,17 @@ fn value_sets(three: bool) -> Vec<Vec<Val>> {
 fn walk(rep: &mut Report, seed: u64, i: u64, states: &mut HashSet<(u8, usize, usize)>) {
     let mut rng = Rng::derive("c16/walk", seed, 0, i);
     let n = 1 + rng.below(if i % 40 == 0 { 48 } else { 6 });
-    let max_len = *rng.pick(&[6usize, 40, 8192]);
+    // one walk in 64 writes frames of 70..400 KiB (far beyond any internal chunk / buffer size)
+    let big = i % 64 == 7;
+    let n = if big { 1 + rng.below(3) } else { n };
+    let max_len = if big { 1 << 20 } else { *rng.pick(&[6usize, 40, 8192]) };
     let values: Vec<Val> = (0..n)
         .map(|_| {
-            if rng.chance(1, 8) {
+            if big && rng.chance(2, 3) {
+                let k = 30_000 + rng.below(120_000);
+                let mut x = rng.next_u32();
+                Val::Data((0..k).map(|_| { x = x.wrapping_mul(1664525).wrapping_add(1013904223); (x >> 16) as u16 }).collect())
+            } else if rng.chance(1, 8) {
                 Val::Refuses
             } else if max_len >= 40 && rng.chance(1, 6) {
                 Val::Counting(Rc::new(std::cell::Cell::new(rng.below(18) as u8)))
